@@ -16,8 +16,9 @@ def main(argv=None):
     res2 = world.run_functions(ck, ["buffers"], BUF, timeout=20)
     from vlib.modelreplay import make_replayer
     world.report(ck, res2, replayer=make_replayer(ck, ["buffers"]))
-    res3 = chanworld.run(ck, [("channel.HTTPChannel.service", "W")])
-    world.report(ck, res3, select=lambda n: "close-when-flushed-means-queue-dropped" in n or "coverage" in n)
+    # the channel side of "a closing response is delivered completely": handle_write promotes close_when_flushed only with an empty backlog
+    res3 = chanworld.run(ck, [("channel.HTTPChannel.service", "W"), ("channel.HTTPChannel.handle_write", "IO")])
+    world.report(ck, res3, select=lambda n: "close-when-flushed-means-queue-dropped" in n or "coverage" in n or "/C03-" in n)
     ck.trusted.extend([
         "demonic application model (contracts/task.py app_effect): start_response 0..2 times (second with/without exc_info) before returning, possibly once more at the first next(), optional use of the write callable, any exception at any point, a file wrapper or an arbitrary iterable as result; application precondition from the statement: a declared Content-Length is 1*DIGIT",
         "model channel: write_soon(bytes) appends to the ghost `wire` or raises ClientDisconnected",
